@@ -7,6 +7,8 @@ which makes the function's verdict UNDECIDED - never silently skipped.
 """
 import ast
 import builtins as pybuiltins
+import os
+import sys
 import types
 
 import z3
@@ -314,6 +316,10 @@ class Ctx(object):
         if z3.is_true(cond):
             return
         if z3.is_false(cond):
+            if os.environ.get('PYVC_DEBUG'):
+                import traceback
+                print('PATHEND: assumption is false', file=sys.stderr)
+                traceback.print_stack(limit=8, file=sys.stderr)
             raise PathEnd()
         if z3.is_quantifier(cond) and cond.is_forall() and \
                 cond.num_vars() == 1 and cond.var_sort(0) == z3.IntSort():
@@ -430,9 +436,32 @@ class Ctx(object):
         self.obligations.append(ob)
         return ob
 
+    def index_terms(self, exprs, limit=10):
+        """Index arguments of list-element terms At_*(l, t) occurring in
+        the given formulas (instantiation candidates)."""
+        out = []
+        seen = set()
+        stack = list(exprs)
+        visited = set()
+        while stack and len(out) < limit:
+            x = stack.pop()
+            if x.get_id() in visited:
+                continue
+            visited.add(x.get_id())
+            if z3.is_app(x):
+                if x.decl().name().startswith('At_') and x.num_args() == 2:
+                    t = x.arg(1)
+                    if t.get_id() not in seen and not z3.is_var(t):
+                        seen.add(t.get_id())
+                        out.append(t)
+                stack.extend(x.children())
+        return out
+
     def instantiate_schemas(self, skolems, goal=None):
         out = []
         int_terms = [t for t in skolems if t.sort() == z3.IntSort()]
+        if goal is not None and self.schemas:
+            int_terms += self.index_terms([goal] + self.pc[-12:])
         for var, body, defaults in self.schemas:
             terms = list(int_terms) + list(defaults) + list(self.inst_terms)
             seen = set()
